@@ -414,7 +414,7 @@ int main()
       pid_t pid = fork();
       if(pid == 0) {
         for(int sig : {SIGSEGV, SIGABRT, SIGALRM, SIGBUS, SIGFPE, SIGPIPE}) signal(sig, dump_on_signal);
-        alarm(10);
+        alarm(60);      // back-stop only: dead-locks are recognised by the scheduler itself (all threads parked)
         run_sched_case(cur, schedule, seed, chunk);
         _exit(0);
       }
